@@ -149,6 +149,42 @@ def d3a_envelope_accepts_any_params(ctx):
                key="D3:envelope-id-any-json")
 
 
+def d6b_socket_dispatches_the_line_just_read(ctx):
+    """The socket entry point answers each line like stdin does only if what it dispatches is the line just read: read_line appends
+    to its buffer, so after every completed read the buffer is cleared before the next read_line, and the dispatched text is the
+    trimmed buffer."""
+    H = "srtla_send::control_socket::handle::{closure#0}"
+    h = ctx.fn(H, "D6")
+    if not h:
+        return
+    fa = ctx.fa(h)
+    cfg = ctx.cfg(h)
+    reads = [(bb, t) for (bb, t) in h.calls() if t["f"].get("path", "").endswith("AsyncBufReadExt::read_line")]
+    if len(reads) != 1:
+        ctx.chk.missing("D6", "control_socket::handle: the read_line call", "%d" % len(reads))
+        return
+    rb, rt = reads[0]
+    buf = strip_old(fa.val_operand(rt["args"][1], (rb, len(h.blocks[rb]["stmts"]))))
+    clears = [bb for (bb, t) in h.calls() if t["f"].get("path", "").endswith("String::clear") and strip_old(fa.val_operand(t["args"][0], (bb, len(h.blocks[bb]["stmts"])))) == buf]
+    arms = [a for (sb, a) in result_arms(h, fa, lambda e: any(is_call(x, name_contains="read_line") for x in walk(e))) if "Ok" in a and "Err" in a]
+    ok = len(arms) == 1 and bool(clears) and cfg.in_cycle(rb)
+    det = "%d clear site(s)" % len(clears)
+    if ok:
+        stale = cfg.can_reach(arms[0]["Ok"], rb, avoid=set(clears))
+        ok = not stale
+        if stale:
+            det = "after a completed read the loop can come back to read_line without clearing the buffer"
+    ctx.chk.ob("D6", "the socket handler clears its line buffer after every completed read, before reading the next line", ok, det, key="D6:socket-buffer-cleared", loc=rt.get("loc"))
+    ds = calls_to(h, stable=C + "dispatch_async")
+    ok = len(ds) == 1
+    if ok:
+        bb, t = ds[0]
+        line = strip_old(fa.val_operand(t["args"][-1], (bb, len(h.blocks[bb]["stmts"]))))
+        tr = [x for x in walk(line) if is_call(x, name_contains="<impl str>::trim")]
+        ok = len(tr) == 1 and any(y == buf for y in walk(tr[0]))
+    ctx.chk.ob("D6", "what the socket handler dispatches is the trimmed line buffer", ok, "", key="D6:socket-dispatches-buffer")
+
+
 def d3_one_response_iff_id(ctx):
     f = ctx.fn(INNER, "D3")
     if not f:
@@ -423,7 +459,7 @@ def d6_entry_points_agree(ctx):
     ctx.WHO_CALLS("D6", INNER, {C + "dispatch"}, floor=1)
 
 
-RULES = [d1_total, d3a_envelope_accepts_any_params, d2_error_codes, d3_one_response_iff_id, d4_clamp_and_echo, d5_takes_effect, d6_entry_points_agree]
+RULES = [d1_total, d3a_envelope_accepts_any_params, d2_error_codes, d3_one_response_iff_id, d4_clamp_and_echo, d5_takes_effect, d6_entry_points_agree, d6b_socket_dispatches_the_line_just_read]
 
 
 def run(ctx):
